@@ -48,6 +48,7 @@ INFO = {
 
 TOL = F(1, 10**12)
 SUBNORMAL_SLACK = F(1, 2**1064)
+MIN_NORMAL = F(1, 2**1022)      # sampling clause: random()*total is rounded on the subnormal grid below this (see docs)
 UNDERFLOW = F(1, 2**990)        # a common mass below this is not a positive float: `&` may raise there
 RUN = "p%d_" % os.getpid()      # file-name prefix of this run inside work/C11 (runs may overlap)
 
@@ -742,7 +743,7 @@ def oracle(case, res, subnormal=False):
     if (res.get("mixed") or {}).get("same") is False:
         bad["sample-seed"] = "equally seeded generators gave different sample sequences"
     # sampling: only events of positive probability
-    if pos1 and mass1 > 0:
+    if pos1 and mass1 >= MIN_NORMAL:
         for dr in res["draws"]:
             if "error" in dr:
                 bad["sample"] = "sample raises %s on a distribution of positive mass" % dr["error"]
@@ -762,7 +763,7 @@ def oracle(case, res, subnormal=False):
                 jx = int(nm[1:])
                 ks, ki = case["kern"][jx][1], res["kern_items"][jx][1]
                 mm = measure(ks, ki if isinstance(ki, list) else [])
-            if not (mm and sum(mm.values()) > 0 and all(v >= 0 for v in mm.values())):
+            if not (mm and sum(mm.values()) >= MIN_NORMAL and all(v >= 0 for v in mm.values())):
                 continue
             if isinstance(ev, str):
                 bad["sample"] = "sample raises %s on a distribution of positive mass" % ev
@@ -973,6 +974,7 @@ def run(ctx):
            "supports_of_10_or_more": 0, "kernel_shared_object": 0,
            "and_subnormal_common_mass_unnormalised_answers": 0, "projection_image_mixes_str_and_numbers": 0,
            "in_place_update_episodes": 0, "in_place_update_to_one_point": 0,
+           "subnormal_total_mass_dists": 0, "sample_zero_probability_with_subnormal_total": 0,
            "table_projection_image_mixes_str_and_numbers": 0, "seeded_batches_k>1": 0, "global_generator_consumed": 0,
            "generator_consumption_drift": 0, "sample_mirror_drift": 0, "sample_k_shape_drift": 0, "mixed_sequence_draws": 0}
     reps = {}
@@ -1085,6 +1087,12 @@ def run(ctx):
                 # goals; the operations on it are judged by the exact Python oracle of the calculus instead.
                 cnt["model_skipped_subnormal_floats"] += 1
                 why = oracle(case, res, subnormal=True)
+                m1s_ = measure(case["d1"], res["d1"]["items"])
+                if 0 < sum(m1s_.values()) < MIN_NORMAL:
+                    cnt["subnormal_total_mass_dists"] += 1
+                    evs_ = [d_["event"] for d_ in res["draws"] + res.get("gdraws", []) if "event" in d_]
+                    if any(m1s_.get(xid(e_), 0) <= 0 for e_ in evs_):
+                        cnt["sample_zero_probability_with_subnormal_total"] += 1
                 m1_, m2_ = measure(case["d1"], res["d1"]["items"]), measure(case["d2"], res["d2"]["items"])
                 n_ = sum(p_ * m2_[x_] for x_, p_ in m1_.items() if x_ in m2_)
                 if 0 < n_ < UNDERFLOW:
@@ -1305,7 +1313,7 @@ def run(ctx):
             acc += p
             cum.append(acc)
         single = len(items1) == 1
-        in_q = bool(items1) and mass1 > 0 and all(p >= 0 for _, p in items1)
+        in_q = bool(items1) and mass1 >= MIN_NORMAL and all(p >= 0 for _, p in items1)
 
         def judge(ev, what):
             try:
@@ -1411,7 +1419,7 @@ def run(ctx):
                     else:
                         jx = int(nm[1:])
                         mm = measure(kspec[jx], kit[jx] if isinstance(kit[jx], list) else [])
-                    ok_q = bool(mm) and sum(mm.values()) > 0 and all(p >= 0 for p in mm.values())
+                    ok_q = bool(mm) and sum(mm.values()) >= MIN_NORMAL and all(p >= 0 for p in mm.values())
                     if isinstance(ev, str):
                         if ok_q:
                             problems["sample"] = "sample of %s raises %s on a distribution of positive mass" % (nm, ev)
@@ -1433,7 +1441,7 @@ def run(ctx):
                 for nm, k_, evs in bt["seq"]:
                     mm = ({x: p for x, p in items1} if nm == "d1" else {x: p for x, p in v2[0]} if nm == "d2"
                           else measure(kspec[int(nm[1:])], kit[int(nm[1:])] if isinstance(kit[int(nm[1:])], list) else []))
-                    ok_q = bool(mm) and sum(mm.values()) > 0 and all(p >= 0 for p in mm.values())
+                    ok_q = bool(mm) and sum(mm.values()) >= MIN_NORMAL and all(p >= 0 for p in mm.values())
                     if isinstance(evs, str):
                         if ok_q:
                             problems["sample"] = "sample(k=%d) of %s raises %s on a distribution of positive mass" % (k_, nm, evs)
